@@ -264,6 +264,13 @@ func (g *scopeGen) child(depth int) {
 	if k == 12 && g.keep {
 		k = 11 // guard js-keepvarnames-else-unscoped (open finding): with KeepVarNames the dissolved else block's names clash unrenamed
 	}
+	if k == 9 && r.Chance(1, 4) {
+		// local bindings spelled like well-known globals (the `(function(window, undefined){…})` idiom): where
+		// they keep their spelling they are still the local bindings, also when read from an inner function
+		site := g.nextSite()
+		g.w(fmt.Sprintf("(function(window,undefined){var Infinity=%s,NaN=%s;h(%d,undefined,Infinity,NaN);Q.push(()=>{h(%d,undefined,Infinity,NaN)});(function(){h(%d,undefined,Infinity)})()})(1,%s);", g.nextTag(), g.nextTag(), site, g.nextSite(), g.nextSite(), g.nextTag()))
+		return
+	}
 	if k == 10 && r.Chance(1, 3) {
 		// a named function expression that calls itself: its name is a binding of its own scope
 		nm := g.freshNames(1, nil)
@@ -470,6 +477,12 @@ func genScopeProgram(r *core.Rand, keep bool) string {
 	if module {
 		g.strict, g.useWith = true, false // module code is strict
 	}
+	// a `with` at program level switches renaming off for the whole program, which then behaves as under KeepVarNames
+	// (guard js-keepvarnames-var-hoisted-into-lexical-block: names unique within a function)
+	topWith := !g.strict && g.useWith && r.Chance(1, 2)
+	if topWith {
+		g.keep = true
+	}
 	if g.strict {
 		g.w("\"use strict\";")
 	}
@@ -479,6 +492,14 @@ func genScopeProgram(r *core.Rand, keep bool) string {
 	n := 2 + r.Intn(3)
 	for i := 0; i < n; i++ {
 		g.child(1 + r.Intn(4))
+	}
+	if topWith {
+		// `with` at program level next to block-scoped declarations outside any function: nothing of the program
+		// may be renamed, the object has properties named like the renamer's first outputs
+		site := g.nextSite()
+		g.w(fmt.Sprintf("var scope%d={e:%s,t:%s,n:%s,r:%s,i:%s,o:%s,a:%s};", site, g.nextTag(), g.nextTag(), g.nextTag(), g.nextTag(), g.nextTag(), g.nextTag(), g.nextTag()))
+		g.w(fmt.Sprintf("for(let index=0;index<1;index++){let total=%s;const limit=%s;with(scope%d){h(%d,index,total,limit)}}", g.nextTag(), g.nextTag(), site, site))
+		g.w(fmt.Sprintf("{let first=%s;with(scope%d){Q.push(()=>h(%d,first))}}", g.nextTag(), site, g.nextSite()))
 	}
 	if module {
 		// the module's interface: exported functions (called by the execution monitor after evaluation); the name of a
@@ -676,6 +697,7 @@ func C02(run *core.Run) {
 			// target editions change what the renamer may assume (e.g. below 2019 an unused catch binding stays in the text)
 			c.Version = []int{2015, 2018, 2019, 2016, 2020, 2017, 2022, 2021}[(i/3)%8]
 		}
+		c.Warm = i%4 == 2
 		if i < 2 {
 			run.Sample(map[string]string{"source": "scope-tree", "config": c.String(), "input": core.Trunc(src, 1500)})
 		}
